@@ -268,6 +268,8 @@ func (v *vc) plan(mq *modelQuery, term string, t types.Type, pos, depth int) *rn
 		}
 	case *types.Interface:
 		n.unsup = "interface"
+	case *types.Map:
+		mq.want(term)
 	default:
 		n.unsup = fmt.Sprintf("%T", u)
 	}
@@ -387,6 +389,15 @@ func (v *vc) emit(n *rnode, m *model) (string, bool) {
 		if len(n.field) == u.NumFields() {
 			return v.emitStruct(n, m)
 		}
+	case *types.Map:
+		p, ok := m.int(n.term)
+		if !ok {
+			return "", false
+		}
+		if p.Sign() == 0 {
+			return fmt.Sprintf("%s(nil)", v.goType(t)), true
+		}
+		return fmt.Sprintf("make(%s)", v.goType(t)), true // contents of maps are not concretised
 	}
 	return "", false
 }
@@ -460,8 +471,39 @@ func (v *vc) replay(ob *obligation, work string, rep map[string]interface{}) (bo
 	}
 	text := v.smtFor(ob, true, mq.terms)
 	file := filepath.Join(work, sanitize(ob.name)+".model.smt2")
-	os.WriteFile(file, []byte(text), 0o644)
-	status, out, _ := runSolver(solvers[0], file, 20)
+	// prefer a small counterexample: every slice/string parameter no longer than what is concretised
+	var small []string
+	for _, p := range fn.Params {
+		t := v.paramTV[p.Name()]
+		switch p.Type().Underlying().(type) {
+		case *types.Slice:
+			small = append(small, fmt.Sprintf("(assert (<= (s_cap %s) %d))", t.term, replayElems))
+		case *types.Basic:
+			if isString(p.Type()) {
+				small = append(small, fmt.Sprintf("(assert (<= (str_len %s) %d))", t.term, replayElems))
+			}
+		}
+	}
+	status, out := "", ""
+	var first []string
+	for _, fe := range v.firstIter {
+		if fe.pos < ob.pos {
+			first = append(first, fmt.Sprintf("(assert (= %s %s))", fe.a, fe.b))
+		}
+	}
+	if len(first) > 0 {
+		// prefer a counterexample on the first iteration of every enclosing loop: a real execution prefix
+		os.WriteFile(file, []byte(strings.Replace(text, "(check-sat)", strings.Join(append(first, small...), "\n")+"\n(check-sat)", 1)), 0o644)
+		status, out, _ = runSolver(solvers[0], file, 10)
+	}
+	if status != "sat" && len(small) > 0 {
+		os.WriteFile(file, []byte(strings.Replace(text, "(check-sat)", strings.Join(small, "\n")+"\n(check-sat)", 1)), 0o644)
+		status, out, _ = runSolver(solvers[0], file, 10)
+	}
+	if status != "sat" {
+		os.WriteFile(file, []byte(text), 0o644)
+		status, out, _ = runSolver(solvers[0], file, 20)
+	}
 	if status != "sat" {
 		status, out, _ = runSolver(solvers[2], file, 20)
 	}
@@ -544,6 +586,14 @@ func (v *vc) replay(ob *obligation, work string, rep map[string]interface{}) (bo
 	}
 	var body strings.Builder
 	body.WriteString(setup.String())
+	// the concretised input must establish the contract's preconditions, otherwise a panic proves nothing
+	for _, r := range v.fc.requires {
+		ge, ok := v.specToGo(r.expr, pargsNames(fn.Params, argNames), nil)
+		if !ok {
+			return false, fmt.Sprintf("precondition %s cannot be evaluated on the concretised input", r.label)
+		}
+		body.WriteString(fmt.Sprintf("\tif !(%s) { fmt.Println(\"GOVC-REPLAY-PRECONDITION-FALSE %s\"); return }\n", ge, r.label))
+	}
 	if nres > 0 {
 		body.WriteString(fmt.Sprintf("\t%s := %s\n", strings.Join(resNames, ", "), call))
 		for _, r := range resNames {
@@ -586,8 +636,11 @@ func (v *vc) replay(ob *obligation, work string, rep map[string]interface{}) (bo
 	rep["replay_output"] = firstLines(outs, 12)
 	rep["replay_cmd"] = "cd /repo && go test -overlay <overlay> -vet=off -timeout 60s -count=1 -run '^TestGovcReplay$' ./" + dir + "/"
 	switch {
+	case strings.Contains(outs, "GOVC-REPLAY-PRECONDITION-FALSE"):
+		return false, "concretised input does not establish the precondition: " + lineWith(outs, "GOVC-REPLAY-PRECONDITION-FALSE")
 	case strings.Contains(outs, "GOVC-REPLAY-PANIC"):
-		if ob.kind == "safety" || ob.kind == "ensures" || ob.kind == "alloc-bound" {
+		if !v.fc.panicsOK {
+			// the input satisfies the preconditions, so any run-time panic breaks the no-panic contract
 			return true, "real code panics on the model input: " + lineWith(outs, "GOVC-REPLAY-PANIC")
 		}
 	case strings.Contains(outs, "GOVC-REPLAY-ENSURES-FALSE"):
